@@ -28,12 +28,8 @@ pub assume_specification [full_moon::ast::Ast::with_nodes] (a: full_moon::ast::A
 pub assume_specification [full_moon::ast::Ast::with_eof] (a: full_moon::ast::Ast, t: TokenReference) -> (r: full_moon::ast::Ast) ensures ast_nodes(r) == ast_nodes(a), ast_eof(r) == t;
 pub assume_specification [<full_moon::ast::Ast as Clone>::clone] (a: &full_moon::ast::Ast) -> (r: full_moon::ast::Ast) ensures r == *a;
 
-// the last pass (formatters/mod.rs, LineCommentGuard): a token that would be printed directly behind a single line comment gets a line break
-// and an indent in front of it, spacing appended behind such a comment is dropped; nothing but whitespace trivia changes (assumed, class C:
-// a VisitorMut over every token; exercised by the corpus and comment-injection sweeps)
-pub uninterp spec fn guarded(c: Context, nodes: Block, eof: TokenReference) -> full_moon::ast::Ast;
 pub open spec fn formatted(c: Context, a: full_moon::ast::Ast, r: full_moon::ast::Ast) -> bool {
-    r == guarded(c, fmt_block(c, ast_nodes(a)), fmt_eof(c, ast_eof(a)))
+    ast_nodes(r) == fmt_block(c, ast_nodes(a)) && ast_eof(r) == fmt_eof(c, ast_eof(a))
 }
 pub open spec fn ctx_of(config: Config, range: Option<Range>) -> Context { Context { config, range, formatting_disabled: false } }
 pub open spec fn pipeline(input: full_moon::ast::Ast, config: Config, range: Option<Range>, out: full_moon::ast::Ast) -> bool {
@@ -49,9 +45,6 @@ pub fn parse(code: &str, syntax: LuaVersion) -> (r: Result<full_moon::ast::Ast, 
 { unimplemented!() /* full_moon::parse_fallible(code, syntax.into()).into_result() */ }
 #[verifier::external_body]
 pub fn ast_to_string(ast: &full_moon::ast::Ast) -> (r: String) ensures r@ == print(*ast) { ast.to_string() }
-#[verifier::external_body]
-pub fn line_comment_guard(ctx: &Context, printed: String, ast: full_moon::ast::Ast) -> (r: full_moon::ast::Ast)
-    requires printed@ == print(ast) ensures r == guarded(*ctx, ast_nodes(ast), ast_eof(ast)) { unimplemented!() /* LineCommentGuard::new(ctx, printed).visit_ast(ast) */ }
 """, module="verif")
 
 PARSE1 = "full_moon::parse_fallible(code, config.syntax.into()).into_result()"
@@ -80,10 +73,7 @@ impl AstVerifier {
         Fn(MOD, "new", impl_of="CodeFormatter", contract="ensures r.context == ctx,"),
         Fn(MOD, "format", impl_of="CodeFormatter", contract="""
     ensures formatted(self.context, ast, r), //# C02.whole_ast
-""", edits=[
-            Hole("let printed = ast.to_string();", "let printed = verif::ast_to_string(&ast);", kind="wrapper", why="Display of Ast"),
-            Hole("LineCommentGuard::new(&self.context, printed).visit_ast(ast)", "verif::line_comment_guard(&self.context, printed, ast)", kind="wrapper", why="VisitorMut pass over every token (the line comment guard): whitespace trivia only, assumed"),
-        ]),
+"""),
         Fn(LIB, "format_ast", contract="""
     ensures
         r is Ok ==> pipeline(input_ast, config, range, r->Ok_0), //# C12.sort_iff_enabled
@@ -108,7 +98,7 @@ impl AstVerifier {
     return its
 
 LABELS = {
-    "C02.whole_ast": dict(props=["C02", "C01"], text="CodeFormatter::format: the result is the input AST with exactly its block passed through format_block and its EOF token through format_eof, then through the line comment guard (which is given the printed form of exactly that AST)"),
+    "C02.whole_ast": dict(props=["C02", "C01"], text="CodeFormatter::format: the result is the input AST with exactly its block passed through format_block and its EOF token through format_eof"),
     "C12.sort_iff_enabled": dict(props=["C12", "C02"], text="format_ast: the sort_requires codemod runs iff config.sort_requires.enabled; otherwise the AST reaches the formatter untouched"),
     "C01.verified_output_parses": dict(props=["C01", "C14"], text="format_ast with OutputVerification::Full returns Ok only if the printed output re-parses under the same syntax and compares equal to the input"),
     "C07.format_ast_total": dict(props=["C07"], text="format_ast without verification always returns Ok (no error path swallowed / invented)"),
